@@ -252,8 +252,22 @@ pub fn run_single(s: &Single) -> Res {
         }
     };
     let logs = std::mem::take(&mut *logger.msgs.lock().unwrap());
+    // the serializer builds its String with from_utf8_unchecked: validate before transport
+    let mut invalid_utf8 = false;
+    let outcome = match outcome {
+        Outcome::Css(css) => {
+            if std::str::from_utf8(css.as_bytes()).is_err() {
+                invalid_utf8 = true;
+                Outcome::Css(String::from_utf8_lossy(css.as_bytes()).into_owned())
+            } else {
+                Outcome::Css(css)
+            }
+        }
+        o => o,
+    };
     Res {
         outcome,
+        invalid_utf8,
         logs,
         fs_calls: memfs.take_calls(),
         micros: t0.elapsed().as_micros() as u64,
